@@ -6,6 +6,7 @@ Line-protocol driver for C27 (model of the proxy's produce / fetch fan-out).
   setup route=<t:p=b,..|-> known=<b,..|-> unres=<t,..|-> down=<b,..|all|->
   P|F req=<t:p+p;t:p..> code=<t:p:k=c,..|-> fault=<t:p:k=f,..|->      (other k=v words are ignored)
   A req=<..>                                                          (acks=0 produce: no reply)
+  C <P|F ..> || <P|F ..>   two clients at the same time (client 0: topics 0-1, client 1: topics 2-3)
 
 A request line runs `forward` from the current routing table (which persists: Invalidate) with
 the scripted backends:
@@ -107,6 +108,19 @@ def stepLine (c : Cfg) (ws : List String) : Cfg × String :=
                   unres := (listOf (kvC rest "unres") ",").filterMap String.toNat? },
        down := if d = "all" then [] else (listOf d ",").filterMap String.toNat?,
        allDown := d = "all" }, "ok")
+  | "C" :: rest =>
+    -- two concurrent clients on disjoint topics: any interleaving equals running them one after
+    -- the other on the shared routing table (their Invalidate calls touch disjoint keys)
+    let a := rest.takeWhile (· ≠ "||")
+    let b := (rest.dropWhile (· ≠ "||")).drop 1
+    let run (rt : Route) (ws : List String) : Result :=
+      let oracle := mkOracle c.allDown (parseScript (kvC ws "code")) (parseScript (kvC ws "fault"))
+      forward (ws.head? = some "F") oracle (fun _ g => g) rt (parseReq (kvC ws "req"))
+    let ra := run c.route a
+    let rb := run ra.route b
+    ({ c with route := rb.route },
+      s!"reply={showReply ra.reply} recv={showRecv c.down ra.log} route={showRoute rb.route} || " ++
+      s!"reply={showReply rb.reply} recv={showRecv c.down rb.log} route={showRoute rb.route}")
   | kind :: rest =>
     if kind = "P" || kind = "F" then
       let req := parseReq (kvC rest "req")
